@@ -209,7 +209,8 @@ unsigned int OneDimensionOptimizationTools::lineMinimization(
     xi[j] *= xmin;
     parameters[j].setValue(parameters[j].getValue() + xi[j]);
   }
-  return bod.getNumberOfEvaluations();
+  // The evaluations actually made (bracketing and final evaluation included), not the number of steps of the optimizer:
+  return f1dim->getNumberOfEvaluations();
 }
 
 /******************************************************************************/
@@ -272,7 +273,8 @@ unsigned int OneDimensionOptimizationTools::lineSearch(
     parameters[j].setValue(parameters[j].getValue() + xi[j]);
   }
 
-  return nbod.getNumberOfEvaluations();
+  // The evaluations actually made:
+  return f1dim->getNumberOfEvaluations();
 }
 
 /******************************************************************************/
